@@ -79,7 +79,7 @@ def write_evidence(module, ctx, stats, violations, known_hit):
     os.makedirs(env.EVIDENCE_DIR, exist_ok=True)
     coverage = {
         'evaluations': int(stats.evaluations),
-        'distinct_nontrivial': len(stats.nontrivial),
+        'distinct_nontrivial': stats.nontrivial_count(),
         'rule': module.RULE,
         'samples': stats.flat_samples(),
         'labels': dict(sorted(stats.labels.items())),
@@ -215,7 +215,7 @@ def main(argv=None):
         print('HARNESS-ERROR property=%s (evidence)' % prop_id)
         return 2
     print('%s tier=%s seed=%d evaluations=%d distinct_nontrivial=%d known_hit=%d violations=%d wall=%.1fs%s' % (
-        prop_id, ctx.tier, ctx.seed, stats.evaluations, len(stats.nontrivial), len(known_hit), violations,
+        prop_id, ctx.tier, ctx.seed, stats.evaluations, stats.nontrivial_count(), len(known_hit), violations,
         time.time() - ctx.started, ' (budget reached)' if stats.budget_reached else ''))
     return status
 
